@@ -14,7 +14,7 @@ from pyvc import ops, ghostlib
 from pyvc.harness import Ctx, refines
 from pyvc.path import fresh_name
 from pyvc.sorts import TypeDesc as T
-from pyvc.values import RecSchema
+from pyvc.values import RecSchema, Unsupported
 
 JA = 'dznpy.json_ast'
 
@@ -40,8 +40,26 @@ def schemas():
     binding = rec('binding', [('left', ep), ('right', ep)])
     rec('bindings', [('elements', T('list', binding))])
     rec('fields', [('elements', T('list', T('str')))])
-    rec('range', [('from', T('int')), ('to', T('int'))])
-    rec('data', [('value', T('str'))])
+    rng = rec('range', [('from', T('int')), ('to', T('int'))])
+    data = rec('data', [('value', T('str'))])
+    flds, ports, insts, binds, events = (T('rec', S[n]) for n in ('fields', 'ports', 'instances', 'bindings', 'events'))
+    rec('enum', [('name', sn), ('fields', flds)])
+    rec('subint', [('name', sn), ('range', rng)])
+    rec('extern', [('name', sn), ('value', data)])
+    rec('foreign', [('name', sn), ('ports', ports)])
+    rec('component', [('name', sn), ('ports', ports)])
+    rec('system', [('name', sn), ('ports', ports), ('instances', insts), ('bindings', binds)])
+    # an item of an interface's 'types' list: an enum, a subint or something the parser skips - the class tag is data
+    S['type_item'] = RecSchema('type_item', {}, [('<class>', T('str')), ('name', sn), ('fields', flds), ('range', rng)],
+                               optional=['fields', 'range'])
+    types = rec('types', [('elements', T('list', T('rec', S['type_item'])))])
+    rec('interface', [('name', sn), ('types', types), ('events', events)])
+    any_list = T('list', T('any'))
+    rec('namespace', [('name', sn), ('elements', any_list)])
+    cmt = rec('comment', [('string', T('str'))])
+    rec('root', [('comment', cmt), ('elements', any_list), ('working-directory', T('str'))], optional=['comment'])
+    rec('import', [('name', T('str'))])
+    rec('file-name', [('name', T('str'))])
     return S
 
 
@@ -83,7 +101,12 @@ def install_wellformedness(I, S):
         inj = i.sorts.rec_accessor(v.schema, 'injected?')(v.expr)
         s, none, some, val = i.sorts.sort_of_opt(T('str'))
         return z3.And(one_of(d, ('requires', 'provides')), z3.Or(inj == none, inj == some(z3.StringVal('injected'))))
-    I.rec_invs = {'scope_name': [inv_sn], 'formal': [inv_formal], 'event': [inv_event], 'port': [inv_port]}
+    def inv_type_item(i, p, v):
+        c = i.sorts.rec_accessor(v.schema, '<class>')(v.expr)
+        return z3.And(z3.Implies(c == z3.StringVal('enum'), i.rec_present(v, 'fields')),
+                      z3.Implies(c == z3.StringVal('subint'), i.rec_present(v, 'range')))
+    I.rec_invs = {'scope_name': [inv_sn], 'formal': [inv_formal], 'event': [inv_event], 'port': [inv_port],
+                  'type_item': [inv_type_item]}
 
 
 TABLE = (('parse_scope_name', 'scope_name', 'scope_name'), ('parse_formal', 'formal', 'formal'),
@@ -92,7 +115,15 @@ TABLE = (('parse_scope_name', 'scope_name', 'scope_name'), ('parse_formal', 'for
          ('parse_ports', 'ports', 'ports'), ('parse_instance', 'instance', 'instance'),
          ('parse_instances', 'instances', 'instances'), ('parse_endpoint', 'end-point', 'endpoint'),
          ('parse_binding', 'binding', 'binding'), ('parse_bindings', 'bindings', 'bindings'),
-         ('parse_fields', 'fields', 'fields'), ('parse_range', 'range', 'range_'), ('parse_data', 'data', 'data'))
+         ('parse_fields', 'fields', 'fields'), ('parse_range', 'range', 'range_'), ('parse_data', 'data', 'data'),
+         ('parse_namespace', 'namespace', 'namespace'), ('parse_root', 'root', 'root'),
+         ('parse_comment', 'comment', 'comment'), ('parse_import', 'import', 'import_'),
+         ('parse_filename', 'file-name', 'filename'))
+# declarations: (function, schema, specification) - called with (element, parent_ns)
+DECLS = (('parse_enum', 'enum', 'enum'), ('parse_subint', 'subint', 'subint'), ('parse_extern', 'extern', 'extern'),
+         ('parse_foreign', 'foreign', 'foreign'), ('parse_component', 'component', 'component'),
+         ('parse_system', 'system', 'system'), ('parse_types', 'types', 'types'),
+         ('parse_interface', 'interface', 'interface'))
 
 
 def run(ctx: Ctx, only=None):
@@ -108,7 +139,58 @@ def run(ctx: Ctx, only=None):
     ctx.assumptions.append('parser contracts (props/parse_unbounded.py): input elements are WELL-FORMED typed JSON '
                            '(key set of the element class, values of the right JSON type, legal direction words, '
                            'identifiers in scope names); ill-formed input is decided on the bounded corpus of C15')
+    sc = I.load_module('dznpy.scoping')
+    NS, NT = sc.globals['NamespaceIds'], sc.globals['NamespaceTree']
+    STR_SEQ = z3.SeqSort(z3.StringSort())
+    FQN = z3.Function('spec.tree_fqn', I.sorts.sort_of_class(NT), STR_SEQ)
+
+    def fqn_items(i, tree, path):
+        """tree_fqn(tree) as a sequence term: uninterpreted for an input tree, one unfolding of its definition
+        (specs.scoping.tree_fqn) for a node built by the code under analysis"""
+        from pyvc.values import DtV, ObjV, SeqV
+        if isinstance(tree, DtV):
+            z = FQN(tree.expr)
+            reg = path.__dict__.setdefault('_fqninv', set())
+            if z.get_id() not in reg:
+                reg.add(z.get_id())
+                q = z3.Int(fresh_name('q'))
+                path.add_hyp([q], z3.Implies(z3.And(q >= 0, q < z3.Length(z)), ops.with_facts(ops.is_ident(z[q]))),
+                             'contract:fqn ensures inv_ids')
+            return i.seq_of_base(z, T('str'), path).blocks
+        if isinstance(tree, ObjV) and tree.cls is NT and tree.fields.get('parent') is not None:
+            own = i.getattr_(tree.fields['scope_name'], 'items', path)
+            return tuple(fqn_items(i, tree.fields['parent'], path)) + tuple(own.term.blocks)
+        raise Unsupported('namespace tree of unknown shape')
+
+    def fqn_member_name_contract(i, path, args, kw):
+        # contract proved under C14: fqn_member_name(m).items == tree_fqn(self) ++ m.items
+        from pyvc.values import ObjV, SeqV, SeqT
+        tree, member = args
+        own = i.getattr_(member, 'items', path)
+        return ObjV(NS, {'items': SeqV(SeqT(tuple(fqn_items(i, tree, path)) + tuple(own.term.blocks)))})
+
+    def tree_fqn_contract(i, path, args, kw):
+        from pyvc.values import SeqV, SeqT
+        return SeqV(SeqT(tuple(fqn_items(i, args[0], path))))
+    I.overrides['dznpy.scoping.NamespaceTree.fqn_member_name'] = fqn_member_name_contract
+    I.overrides['specs.scoping.tree_fqn'] = tree_fqn_contract
+    ctx.assumptions.append('callee by contract: NamespaceTree.fqn_member_name(m).items == tree_fqn(self) ++ m.items '
+                           '(proved under C14)')
     try:
+        for fname, sname, specname in DECLS:
+            if only and fname not in only:
+                continue
+            f = I.get_function(f'{JA}.{fname}')
+            ctx.functions[f'{JA}.{fname}'] = 'proved for well-formed elements (any list sizes, any enclosing namespaces)'
+
+            def mk2(p, sname=sname):
+                e = I.wrap(T('rec', S[sname]), z3.Const('in_elt', I.sorts.sort_of_rec(S[sname])), p)
+                tree = I.fresh_dt(NT, 'in_parent_ns', p)
+                return [e, tree], [e, tree]
+            refines(ctx, f'json_ast.{fname}', f'{JA}.{fname}', lambda i, p, a, k, f=f: i.call_function(f, a, k, p),
+                    lambda i, p, a, k, specname=specname: i.call_function(spec.globals[specname], a, k, p), mk2,
+                    witness=None, text=f'{fname}(well-formed element, parent_ns) == specs.parse_spec.{specname}: fully '
+                                       f'qualified by the enclosing namespaces, details as written')
         for fname, sname, specname in TABLE:
             if only and fname not in only:
                 continue
@@ -126,3 +208,5 @@ def run(ctx: Ctx, only=None):
         I.class_invs.clear()
         I.class_invs.update(saved)
         I.rec_invs = {}
+        I.overrides.pop('dznpy.scoping.NamespaceTree.fqn_member_name', None)
+        I.overrides.pop('specs.scoping.tree_fqn', None)
